@@ -178,7 +178,7 @@ def issues_from_validation(ctx, res, which, label):
             props = {"C03"}
             what = ("allocation made inside libvna still live after "
                     "vnacal_free (%s, case %s)" % (name, case))
-        elif field in ("recovered", "satisfies"):
+        elif field in ("recovered", "satisfies", "applies"):
             sig = "CalFlow:%s:%s:%s" % (e, field, shape)
             props = {"C01", prop}
             what = ("%s: %s = 0 for a determined calibration: %s %dx%d %s "
